@@ -27,7 +27,8 @@ structure Ctx (α : Type) where
   dblProg : List SLP.Instr
   dblOut : String × String × String
 
-def slpOps (F : FieldOps α) : SLP.Ops α := { mul := F.mul, add := F.add, sub := F.sub, zero := F.zero }
+def slpOps (F : FieldOps α) : SLP.Ops α :=
+  { mul := F.mul, add := F.add, sub := F.sub, square := F.square, zero := F.zero }
 
 /-- `NewSM2Point()`: (0 : 1 : 0) -/
 def infinity (C : Ctx α) : Pt α := { x := C.F.zero, y := C.F.setOne, z := C.F.zero }
